@@ -27,19 +27,21 @@ CLOCKS = ("Clock", "Process Time", "Run Time", "Block Time", "Scope Time")
 # Watch, plus Stop / Restart so that the run-start and run-stop hooks of the tags (on_start / on_stop) are exercised.
 # SetOut / Pause so that the safe-state / restore-state writes of the outputs happen too.
 KINDS_FULL = ["K", "EB", "EBS", "M", "SiT", "Si", "SoT", "So", "Bs", "W", "L", "Wa", "St", "Rs", "S", "P"]
-KINDS_SUB = ["K", "EB", "M", "SiT", "Si", "SoT", "So", "Wa", "Rs"]
-KINDS_SUB4 = ["K", "EB", "SiT", "Si", "SoT", "So", "Wa", "Rs"]
+KINDS_SUB = ["K", "EB", "EBS", "M", "SiT", "Si", "SoT", "So", "W", "Wa", "Rs"]
+KINDS_SUB4 = ["K", "EB", "M", "SiT", "Si", "SoT", "So", "Wa", "Rs"]
 INPUT_DRIVEN = ("Tot", "In1", "X", "Accumulated Volume", "Block Volume")
 
 
 def corpus(quick: bool) -> list[list[str]]:
     """All programs (as source lines), simplest first.  quick: <= 2 statements over KINDS_FULL + 3 over KINDS_SUB;
-    thorough: <= 3 over KINDS_FULL + 4 over KINDS_SUB4.  Nesting <= 2."""
+    thorough: <= 3 over KINDS_FULL + 4 over KINDS_SUB4.  Nesting <= 2; body openers (Block, Watch) always have a body."""
     seen = set()
     out = []
 
     def add(forests):
         for f in forests:
+            if not pgen.no_empty_openers(f):      # the parser re-nests the line after an empty body (C17 finding)
+                continue
             if f not in seen:
                 seen.add(f)
                 out.append(pgen.render(f))
